@@ -558,7 +558,7 @@ def default_to_current(ctx):
                       f"the one-segment and two-segment arms are swapped or not distinguished by length (bare under len in {sorted(lc)}, qualified under len in {sorted(ls)})")
 
 
-@rule("C19.CALLERS", ["C19"], """the `current project` given to the name parser is the root project's name in main, and the declaring target's own project inside project files""", "K5", floor=3)
+@rule("C19.CALLERS", ["C19", "C09"], """the `current project` given to the name parser is the root project's name in main, and the declaring target's own project inside project files""", "K5", floor=3)
 def callers(ctx):
     r = ctx.r
     f = ctx.f
@@ -681,3 +681,27 @@ def name_regex(ctx):
         rejects = ["a::b::c.output", ".output", "a.b.output", "a.outputs", "a::.output", "::a.output", "a output", "a.output "]
         wrong = [k for k, v in cases.items() if not rx.search(k) or rx.search(k).group(1) != v] + [x for x in rejects if rx.search(x)]
         ctx.check(not wrong, "output-reference/captures-one-qualified-name", [site(b, bb)], f"the `X.output` regex {lit} misclassifies {wrong}")
+
+
+@rule("C19.ID-CONSTRUCTION-SITES", ["C19", "C09"], """target ids are built from text only by the name parser (which applies the current-project default); the only other construction is the
+      enumeration of the loaded targets from the project map""", "K4", floor=2)
+def id_construction_sites(ctx):
+    f = ctx.f
+    r = ctx.r
+    parsers = {p.name for p in parse_fns(ctx)}
+    n = 0
+    for (b, sites) in r.bodies_constructing("TargetId"):
+        outer = r.outer_fn(b).name
+        for (bb, st) in sites:
+            n += 1
+            if outer in parsers:
+                ctx.ok(f"{short(outer)}@{[s[0] for s in sites].index(bb)}", [site(b, bb)], "name parser")
+                continue
+            # enumeration of loaded targets: both fields derive from iteration over the project map (keys), no text parsing
+            pat = b.prov.operand_atoms(agg_field_op(st, "project_name"))
+            tat = b.prov.operand_atoms(agg_field_op(st, "target_name"))
+            from_map = (any(c.endswith("::keys") or c.endswith("::iter") for c in atom_callres(tat)) or any(a[0] == "param" for a in tat)) and not any(re.search(r"regex::|str>::split|::captures|Match", c) for c in atom_callres(pat | tat))
+            lister = re.search(r"Vec<[\w:]*TargetId>", f.bodies[outer].ret) is not None and f.bodies[outer].argc == 1
+            ctx.check(from_map and lister, f"{short(outer)}@{bb}", [site(b, bb)],
+                      "a target id is assembled outside the name parser: the current-project default (bare name = target of the same project) is bypassed")
+    ctx.need(n >= 3, "constructions of TargetId")
